@@ -551,15 +551,20 @@ def run_case_paint(case, fast_mlp=True):
     known = []
     if err and "interpolation" in (case["kwargs"].get("calc"), case["kwargs"].get("mode")) and \
             re.match(r"(LinAlgError|ValueError)", err):
-        # finding on the unchanged code (see the final report of o2): the interpolating painters hand the trial points to
-        # scipy's Rbf / interp1d, which fail on duplicate nodes; the evolvent maps all x of one subinterval to one point, so
-        # duplicates appear as soon as two trials fall into one subinterval (low density, many trials near one corner).
+        # known finding F15 on the unchanged code: the interpolating painters hand the trial points to scipy's Rbf / interp1d, whose
+        # linear system is numerically singular when two DISTINCT nodes (exact duplicates are removed since the repair F10) are closer
+        # than rounding allows relative to the extent of the node set - e.g. a box with one side of 1e-12: trials of one grid column
+        # differ by 1e-13 in that coordinate.  Only that situation is the listed finding; the same exception on well-separated nodes,
+        # or on exact duplicates (F10 is FIXED and suppresses nothing), stays a violation.
         ax = case["kwargs"].get("varsIndxs", [0, 1]) if case["painter"] == "StaticNDPaintListener" else [case["kwargs"].get("indx", 0)]
-        nodes = [tuple(e[1][a] for a in ax) for e in prob.log if e[0] == "global"]
-        if len(set(nodes)) < len(nodes):
+        nodes = sorted({tuple(float(e[1][a]) for a in ax) for e in prob.log if e[0] == "global"})
+        diam = max((max(nd[j] for nd in nodes) - min(nd[j] for nd in nodes)) for j in range(len(ax))) if nodes else 0.0
+        close = [(p_, q_) for i_, p_ in enumerate(nodes) for q_ in nodes[i_ + 1:]
+                 if max(abs(u_ - w_) for u_, w_ in zip(p_, q_)) <= 1e-9 * diam]
+        if close:
             for v in viol:
-                v["key"] = "interpolation-painter-singular-on-duplicate-trial-points"
-                v["duplicate_nodes"] = len(nodes) - len(set(nodes))
+                v["key"] = "interpolation-painter-singular-on-near-coincident-trial-points"
+                v["closest_nodes"] = [list(close[0][0]), list(close[0][1])]
             known, viol = viol, []
     if not viol:
         b0 = bsv.GetResults().bestTrials[0]
@@ -584,13 +589,18 @@ WITNESS_DUPLICATE_NODES = {
     "spec": {"kind": "linear", "c": [1.99, -1.71]}, "lower": [3.01, 4.09], "upper": [9.26, 7.08],
     "params": {"eps": 0.0001, "r": 2.53, "itersLimit": 20, "evolventDensity": 8, "refineSolution": False}, "ops": ["I2", "S"]}
 
+# witness of the known finding F15 (found by the thorough tier): a box whose second side is 9.1e-13 long
+WITNESS_NEAR_COINCIDENT_NODES = {
+    "part": "paint", "painter": "StaticNDPaintListener", "kwargs": {"mode": "lines layers", "calc": "interpolation"},
+    "spec": {"kind": "plateau", "q": 4, "of": {"kind": "trig", "a": [1.71, 1.15], "w": [2.84, 18.2], "ph": [5.61, 1.89]}},
+    "lower": [-1.9, 0.0], "upper": [-1.14, 9.094947017729282e-13],
+    "params": {"eps": 0.0001, "r": 3.21, "itersLimit": 10, "evolventDensity": 8, "refineSolution": False}, "ops": ["S"]}
+
 
 def probe_duplicate_nodes():
-    """fixed witness of the finding 'interpolating painters make Solve raise when two trials share a point'"""
+    """the witness of the REPAIRED defect F10 (two trials share a point): must not raise any more"""
     v, info = run_case_paint(WITNESS_DUPLICATE_NODES)
-    k = info.get("known", [])
-    return {"case": WITNESS_DUPLICATE_NODES, "outcome": (k[0]["with"] if k else ("violation" if v else "no exception")),
-            "duplicate_nodes": k[0]["duplicate_nodes"] if k else 0}
+    return {"case": WITNESS_DUPLICATE_NODES, "outcome": "violation" if v else "no exception"}
 
 
 # ------------------------------------------------------------------------------------------------
@@ -651,6 +661,8 @@ def run(tier, r):
         stats["probe_interpolation_painter_on_duplicate_trial_points"] = probe_duplicate_nodes()
     except Exception as e:     # noqa: BLE001
         stats["probe_interpolation_painter_on_duplicate_trial_points"] = f"probe failed: {type(e).__name__}: {e}"
+    v, info = run_case_paint(WITNESS_NEAR_COINCIDENT_NODES)      # the witness of the known finding F15 is always run
+    record(WITNESS_NEAR_COINCIDENT_NODES, v, info, True)
     for k in range(npaint):
         if bud.over() or len(viol) >= 18:
             stats["paint_truncated"] = True
